@@ -76,6 +76,12 @@ func cmdFunc(args []string) {
 	if *name == "" {
 		names = sortedKeys(e.spec.Funcs)
 	}
+	if *name == "?" {
+		for _, n := range sortedKeys(e.funcs) {
+			fmt.Println(n)
+		}
+		return
+	}
 	if *name == "package" {
 		res := e.PackageScans()
 		e.DischargeAll(res, nil, 4)
